@@ -432,6 +432,7 @@ def soak_case(ctx, idx, rng):
                                          'pytenet.minimization.calculate_ground_state_local_singlesite', 'pytenet.minimization.calculate_ground_state_local_twosite')]
     ctx.case(('soak', 'repository-test-suite'), nontrivial=True, sample={'functions_monitored': [f for f, _ in att]})
     soak.run_suite(ctx, att)
+    soak.run_notebooks(ctx, att)
 
 
 SPEC = {
